@@ -55,6 +55,7 @@ trait RcT {
     fn rc_req(&self, p0: u32, p1: u32) -> u32;
     fn rc_m2(self: Rc<Self>, p0: u32, p1: u32) -> u32;
     fn rc_prov(self: Rc<Self>, p0: u32, p1: u32) -> u32 { see(format!("prov({p0},{p1})")); self.rc_req(p1, p0) + 1 }
+    fn rc_prov2(self: Rc<Self>, p0: u32, p1: u32) -> u32 { see(format!("prov2({p0},{p1})")); let x = self.rc_req(p1, p0); self.rc_m2(x, p0) + 1 }
 }
 
 #[unimock(api=ArcMock)]
@@ -278,6 +279,26 @@ fn main() {
         let r = u.rc_prov(3, 7);
         let s = seen();
         check("rc.default.sole-owner", r == 74 && s == ["prov(3,7)", "req(7,3)"], format!("ret={r} seen={s:?}"));
+    });
+    // a sole Rc owner whose default body goes on to consume the Rc in a required method; and one with an unmet expectation
+    run_case("rc.default.sole-owner-nested", || {
+        let u = Rc::new(Unimock::new((
+            RcMock::rc_req.each_call(matching!(_, _)).answers(&|_, a, b| { see(format!("req({a},{b})")); a * 10 + b }),
+            RcMock::rc_m2.each_call(matching!(_, _)).answers(&|_, a, b| { see(format!("m2({a},{b})")); a + b }),
+        )));
+        let r = u.rc_prov2(3, 7);
+        let s = seen();
+        check("rc.default.sole-owner-nested", r == 77 && s == ["prov2(3,7)", "req(7,3)", "m2(73,3)"], format!("ret={r} seen={s:?}"));
+    });
+    run_case("rc.default.sole-owner-unmet", || {
+        let u = Rc::new(Unimock::new((
+            RcMock::rc_req.each_call(matching!(_, _)).answers(&|_, a, b| a * 10 + b),
+            RcMock::rc_m2.next_call(matching!(1, 1)).returns(5u32).n_times(2),
+        )));
+        let r = std::panic::catch_unwind(std::panic::AssertUnwindSafe(move || u.rc_prov(3, 7)));
+        let _ = seen();
+        let msg = match &r { Ok(v) => format!("returned {v} silently"), Err(p) => p.downcast_ref::<String>().cloned().unwrap_or_default() };
+        check("rc.default.sole-owner-unmet", r.is_err() && msg.contains("rc_m2"), msg.replace('\n', " "));
     });
     run_case("arc.default.shared-owner", || {
         let u = Arc::new(Unimock::new(ArcMock::ar_req.each_call(matching!(_, _)).answers(&|_, a, b| { see(format!("req({a},{b})")); a * 10 + b })));
